@@ -318,7 +318,15 @@ class ParseMachine(StateMachine):
         # Positional args (must come above context-name check in case we still
         # need a posarg and the user legitimately wants to give it a value that
         # just happens to be a valid context name.)
-        elif self.context and self.context.missing_positional_args:
+        elif (
+            self.context
+            and self.context.missing_positional_args
+            and not (
+                self.initial
+                and self.context is not self.initial
+                and token in self.initial.flags
+            )
+        ):
             msg = "Context {!r} requires positional args, eating {!r}"
             debug(msg.format(self.context, token))
             self.see_positional_arg(token)
